@@ -12,6 +12,7 @@ var (
 	VerifHasValidHyphens              = hasValidHyphens
 	VerifHasValidHexChars             = hasValidHexChars
 	VerifIsValidUUIDVersionAndVariant = isValidUUIDVersionAndVariant
+	VerifIsMaxUUID                    = isMaxUUID
 )
 
 // Email helpers.
